@@ -66,3 +66,52 @@ Section DefaultBatchComplete.
     rewrite Hl, Nat.eqb_refl. cbn [negb]. exact Hc.
   Qed.
 End DefaultBatchComplete.
+
+(* the same with separate prover / verifier transcript states related by a simulation (e.g. a prover state that also carries
+   its RNG tape), and a side condition on the points *)
+Section DefaultBatchCompleteSim.
+  Context {FO : FieldOps}.
+  Variables (Comm Item Proof PSt VSt : Type).
+  Variable check : list Comm -> point -> list F -> Proof -> VSt -> res (bool * VSt).
+  Variable open : list Item -> point -> PSt -> res (Proof * PSt).
+  Variable R : Item -> Comm -> Prop.
+  Variable value : Item -> point -> F.
+  Variable sim : PSt -> VSt -> Prop.
+  Variable okpt : point -> Prop.
+  Hypothesis group_complete : forall items cs pt st vst pf st',
+    okpt pt -> Forall2 R items cs -> sim st vst -> open items pt st = Ok (pf, st') ->
+    exists vst', check cs pt (map (fun it => value it pt) items) pf vst = Ok (true, vst') /\ sim st' vst'.
+
+  Lemma bloop_complete_sim im cm ev : maps_agree Comm Item R im cm -> forall gs st vst pfs st' result,
+    (forall pl pt labels, In (pl, (pt, labels)) gs -> okpt pt /\ evals_true Item value im ev pt labels) ->
+    sim st vst ->
+    bopen_loop Item Proof PSt open im gs st = Ok (pfs, st') ->
+    exists vst', bcheck_loop Comm Proof VSt check cm ev gs pfs vst result = Ok (result, vst') /\ sim st' vst' /\ length pfs = length gs.
+  Proof.
+    intros Hm. induction gs as [|[pl [pt labels]] gs IH]; intros st vst pfs st' result He Hs H; cbn [bopen_loop] in H.
+    - injection H as <- <-. exists vst. repeat split; assumption.
+    - destruct (gather_p Item im labels) as [its| |] eqn:Eg; cbn [bind] in H; try discriminate.
+      destruct (open its pt st) as [[pf st1]| |] eqn:Eo; cbn [bind fst snd] in H; try discriminate.
+      destruct (bopen_loop Item Proof PSt open im gs st1) as [[rest st2]| |] eqn:Er; cbn [bind fst snd] in H; try discriminate.
+      injection H as <- <-.
+      destruct (He pl pt labels (or_introl eq_refl)) as [Hok Hev].
+      destruct (gather_agree Comm Item R value im cm ev pt Hm labels its Hev Eg) as (cs & Egv & HF).
+      destruct (group_complete its cs pt st vst pf st1 Hok HF Hs Eo) as (vst1 & Ec & Hs1).
+      destruct (IH st1 vst1 rest st2 (result && true) (fun pl0 pt0 l0 Hin => He pl0 pt0 l0 (or_intror Hin)) Hs1 Er) as (vst2 & Hc & Hs2 & Hl).
+      exists vst2. split; [|split; [exact Hs2|cbn [length]; lia]].
+      cbn [bcheck_loop]. rewrite Egv. cbn [bind fst snd]. rewrite Ec. cbn [bind fst snd].
+      rewrite Hc. rewrite andb_true_r. reflexivity.
+  Qed.
+
+  Theorem default_batch_complete_sim items cs qs ev st vst pfs st' :
+    maps_agree Comm Item R (label_map items) (label_map cs) ->
+    (forall pl pt labels, In (pl, (pt, labels)) (groups qs) -> okpt pt /\ evals_true Item value (label_map items) ev pt labels) ->
+    sim st vst ->
+    default_batch_open Item Proof PSt open items qs st = Ok (pfs, st') ->
+    exists vst', default_batch_check Comm Proof VSt check cs qs ev pfs vst = Ok (true, vst') /\ sim st' vst'.
+  Proof.
+    intros Hm He Hs H. unfold default_batch_open in H. unfold default_batch_check.
+    destruct (bloop_complete_sim _ _ ev Hm (groups qs) st vst pfs st' true He Hs H) as (vst' & Hc & Hs' & Hl).
+    exists vst'. rewrite Hl, Nat.eqb_refl. cbn [negb]. split; assumption.
+  Qed.
+End DefaultBatchCompleteSim.
